@@ -856,6 +856,271 @@ def history_compare(ctx, h, got, model):
             ctx.disagree("engine.trace", h, mt, rt)
 
 
+# =============================================================== B5: param.session (calls, failed calls, reset)
+
+def gen_session(rng):
+    h = gen_history(rng)
+    for sg in h["segs"]:
+        sg[:] = [c for c in sg if c["k"] not in ("del", "new")]
+        for c in sg:
+            if c.get("target", 0) >= h["n"]:
+                c["target"] = 0
+    h["segs"] = [sg for sg in h["segs"] if sg] or [[dict(k="prepare", mode=0, how="Vacuum")]]
+    h.update(opt=False, shots=1, rerun=None, premature=False, suffix=False)
+    # how the segments are grouped into eng.run calls, and where eng.reset() is called
+    calls, k = [], 0
+    while k < len(h["segs"]):
+        g = rng.randint(1, 2) if h["build"] == "before" else 1
+        calls.append(list(range(k, min(k + g, len(h["segs"])))))
+        k += g
+    h["calls"] = calls
+    h["resets"] = [i for i in range(1, len(calls)) if rng.random() < 0.15]
+    return h
+
+
+def session_real(sf, h):
+    """every call is made, also after a ParameterError; returns [(event for the model, trace, err)]"""
+    PE = perr(sf)
+    fname = next(iter(h["free"]))
+    progs = []
+
+    def build(k):
+        p = sf.Program(h["n"]) if k == 0 else sf.Program(progs[k - 1])
+        _fill(sf, p, h["segs"][k], fname, {} if h.get("share") else None)
+        progs.append(p)
+    if h["build"] == "before":
+        for k in range(len(h["segs"])):
+            build(k)
+    backend = px.make_backend([])
+    eng = sf.Engine(backend)
+    out = []
+    for ci, call in enumerate(h["calls"]):
+        if ci in h["resets"]:
+            eng.reset()
+            out.append(({"reset": True}, None, None))
+        for k in call:
+            if len(progs) <= k:
+                build(k)
+        ps = [progs[k] for k in call]
+        segs = []
+        for p, k in zip(ps, call):
+            own = [[int(i), px.val_tree(float(np.squeeze(r.val)))] for i, r in p.reg_refs.items()
+                   if r.val is not None and np.size(r.val) == 1]
+            segs.append({"own": own, "cmds": history_model_req(sf, dict(h, segs=[h["segs"][k]]))["segs"][0]})
+        backend.calls.clear()
+        backend.outcomes = _outcomes(h, [h["segs"][k] for k in call])
+        try:
+            eng.run(ps if len(ps) > 1 else ps[0], args=dict(h["free"]))
+            err = None
+        except PE:
+            err = "ParameterError"
+        except RuntimeError as e:
+            if "Register mismatch" not in str(e):
+                raise
+            return out   # a refused call ends the comparison (register bookkeeping is not this model's subject)
+        out.append(({"run": segs}, [a[1] for a in _trace(backend)], err))
+    return out
+
+
+def session_one(ctx, sf, h, reqs, pend):
+    h = copy.deepcopy(h)
+    for cmds in h["segs"]:
+        for c in cmds:
+            if c["k"] == "use":
+                c["e"] = canon_tree(sf, c["e"], h["n"], list(h["free"]))
+        cmds[:] = [c for c in cmds if not (c["k"] == "use" and not px.atoms(c["e"], "m") and not px.atoms(c["e"], "f")
+                                           and px.fold(c["e"]) == 0)]
+    ctx.count("session_%dcalls" % len(h["calls"]), h, True)
+    try:
+        res = session_real(sf, h)
+    except Exception as e:
+        ctx.fail("session-crash", f"a session of eng.run calls raises {type(e).__name__}: {str(e)[:200]}",
+                 dict(kind="session", case=h))
+        return
+    conditioned = all(px.well_conditioned(c["e"], h["free"], {m: 1.0 for m in range(h["n"] + 1)}, 1e4)
+                      for cmds in h["segs"] for c in cmds if c["k"] == "use")
+    if ctx.proof_ok and res:
+        reqs.append({"op": "param.session", "free": [[k, rat(v)] for k, v in h["free"].items()],
+                     "events": [r[0] for r in res]})
+        pend.append(("session", h, dict(res=[(r[1], r[2]) for r in res if r[1] is not None], cond=conditioned)))
+        ctx.tally("session_with_failed_call" if any(r[2] for r in res) else "session_all_ok")
+
+
+def session_compare(ctx, h, got, model):
+    ctx.corr_cases += 1
+    if isinstance(model, dict) and "__error__" in model:
+        ctx.disagree("param.session", h, model, "driver error")
+        return
+    if len(model) != len(got["res"]):
+        ctx.disagree("session.calls", h, len(model), len(got["res"]))
+        return
+    for i, (m, (tr, err)) in enumerate(zip(model, got["res"])):
+        merr = None if m["err"] is None else "ParameterError"
+        if merr != err:
+            ctx.disagree("session.error", dict(h, call=i), m["err"], err)
+            return
+        if got["cond"]:
+            mt = [px.fold(t) for t in m["trace"]]
+            if len(mt) != len(tr) or not all(px.close(a, b) for a, b in zip(mt, tr)):
+                ctx.disagree("session.trace", dict(h, call=i), mt, tr)
+                return
+
+
+# =============================================================== B6: param.convert (par_convert)
+
+CONV_MODES = [0, 1, 2, 9, 10, 11, 12, 20, 23]
+
+
+def gen_convert_case(rng):
+    u = next(_uid)
+    names = [f"alpha{u}", f"w{u}"]
+    t = px.gen_expr(rng, rng.randint(1, 3), names + [f"q{m}" for m in rng.sample(CONV_MODES, 3)], [], p_atom=0.4)
+    meas = {m: dy(rng) for m in CONV_MODES}
+    free = {nm: dy(rng) for nm in names}
+    return dict(n=24, names=names, e=t, meas=meas, free=free, rrt=rng.random() < 0.3)
+
+
+def convert_one(ctx, sf, case, reqs, pend):
+    import sympy
+    import blackbird
+    from strawberryfields.parameters import par_convert, par_evaluate, par_regref_deps, MeasuredParameter, FreeParameter
+    rp = dict(kind="convert", case=case)
+    syms = {}
+
+    class Plain(dict):
+        def __missing__(self, k):
+            self[k] = sympy.Symbol(k)
+            return self[k]
+    bb = px.to_sympy(case["e"], Plain(), None)
+    if not isinstance(bb, sympy.Basic):
+        return
+    try:
+        walked_in = px.from_sympy(bb)
+    except px.Unsupported:
+        ctx.tally("convert_unsupported_sympy_node")
+        return
+    prog = sf.Program(case["n"])
+    ctx.count("convert", case, True, sample=case)
+    ctx.oracle_cases += 1
+    try:
+        arg = blackbird.RegRefTransform(bb) if case["rrt"] and all(str(x).startswith("q") for x in bb.free_symbols) \
+            and bb.free_symbols else bb
+        out = par_convert([arg, 0.375], prog)
+    except Exception as e:
+        ctx.fail("par-convert-raises", f"par_convert raises {type(e).__name__}: {str(e)[:160]} on {bb}", rp)
+        return
+    conv = out[0]
+    if out[1] != 0.375:
+        ctx.fail("par-convert-number", f"a numeric argument came back as {out[1]}", rp)
+    names_in = set(px.atoms(walked_in, "f"))
+    want_m = sorted({int(nm[1:]) for nm in names_in if nm[0] == "q"})
+    want_f = sorted(nm for nm in names_in if nm[0] != "q")
+    try:
+        walked_out = px.from_sympy(conv) if isinstance(conv, sympy.Basic) else px.num(conv)
+    except px.Unsupported:
+        ctx.tally("convert_unsupported_sympy_node")
+        return
+    got_m, got_f = sorted(set(px.atoms(walked_out, "m"))), sorted(set(px.atoms(walked_out, "f")))
+    own = isinstance(conv, sympy.Basic) and all(prog.reg_refs[r.ind] is r for r in par_regref_deps(conv)) and \
+        all(prog.free_params.get(a.name) is a for a in conv.atoms(FreeParameter))
+    if got_m != want_m or got_f != want_f or not own:
+        ctx.fail("par-convert-atoms", f"{bb} was converted to {conv}: measured subsystems {got_m} (expected {want_m}), "
+                 f"free parameters {got_f} (expected {want_f}), atoms belong to the program: {own}", rp)
+        return
+    env_f = dict(case["free"])
+    env_f.update({f"q{m}": v for m, v in case["meas"].items()})
+    if px.well_conditioned(walked_in, env_f, {}):
+        for m, v in case["meas"].items():
+            prog.reg_refs[int(m)].val = np.array([v])
+        prog.bind_params({k: v for k, v in case["free"].items() if k in prog.free_params})
+        try:
+            val = par_evaluate(conv)
+            if not px.close(px.fold(walked_in, env_f, {}), val):
+                ctx.fail("par-convert-value", f"{bb} converted to {conv}: value {val}, expected "
+                         f"{px.fold(walked_in, env_f, {})}", rp)
+        except Exception as e:
+            ctx.fail("par-convert-value", f"converted parameter does not evaluate: {type(e).__name__}: {e}", rp)
+    if ctx.proof_ok:
+        reqs.append({"op": "param.convert", "e": walked_in})
+        pend.append(("convert", case, dict(m=got_m, f=got_f, out=walked_out,
+                                          env_f=case["free"], env_m={int(k): v for k, v in case["meas"].items()})))
+
+
+def convert_compare(ctx, case, got, model):
+    ctx.corr_cases += 1
+    if model is None or (isinstance(model, dict) and "__error__" in model):
+        ctx.disagree("par_convert", case, model, "converted")
+        return
+    if sorted(set(px.atoms(model, "m"))) != got["m"] or sorted(set(px.atoms(model, "f"))) != got["f"]:
+        ctx.disagree("par_convert.atoms", case, [sorted(set(px.atoms(model, "m"))), sorted(set(px.atoms(model, "f")))],
+                     [got["m"], got["f"]])
+        return
+    if px.well_conditioned(model, got["env_f"], got["env_m"]) and \
+            not px.close(px.fold(model, got["env_f"], got["env_m"]), px.fold(got["out"], got["env_f"], got["env_m"])):
+        ctx.disagree("par_convert.value", case, px.fold(model, got["env_f"], got["env_m"]),
+                     px.fold(got["out"], got["env_f"], got["env_m"]))
+
+
+# =============================================================== O2: independence of the order programs are built in
+
+def cache_order_oracle(ctx, sf, rng):
+    """many programs with equal-looking expressions (q10**2, 2*q10, …) built in one process, in random order,
+    with SymPy's caches cleared or not in between and some programs deleted: every program keeps ITS RegRefs and
+    is applied with ITS outcomes"""
+    import gc
+    from sympy.core.cache import clear_cache
+    from sympy.core.symbol import Symbol
+    from strawberryfields import ops
+    from strawberryfields.parameters import par_regref_deps, par_funcs as pf
+    forms = {0: lambda a, b: a ** 2, 1: lambda a, b: 2 * a, 2: lambda a, b: pf.sin(a) + 1, 3: lambda a, b: a,
+             4: lambda a, b: a * b, 5: lambda a, b: a - b}
+    ref = {0: lambda a, b: a ** 2, 1: lambda a, b: 2 * a, 2: lambda a, b: np.sin(a) + 1, 3: lambda a, b: a,
+           4: lambda a, b: a * b, 5: lambda a, b: a - b}
+    script = []
+    live = []
+    ctx.oracle_cases += 1
+    ctx.count("cache_order", None, True)
+    try:
+        for it in range(rng.randint(6, 14)):
+            f = rng.randrange(6)
+            act = rng.choice(["none", "none", "clear", "symcache", "drop"])
+            script.append((f, act))
+            p = sf.Program(12)
+            with p.context as q:
+                ops.MeasureHomodyne(0.0) | q[10]
+                ops.MeasureHomodyne(0.0) | q[1]
+                ops.Dgate(forms[f](q[10].par, q[1].par), 0.0) | q[11]
+            live.append((p, f, dy(rng), dy(rng)))
+            if act == "clear":
+                clear_cache()
+            elif act == "symcache":
+                c = getattr(Symbol, "_Symbol__xnew_cached_", None)
+                if c is not None and hasattr(c, "cache_clear"):
+                    c.cache_clear()
+            elif act == "drop" and len(live) > 1:
+                del live[rng.randrange(len(live) - 1)]
+                gc.collect()
+        rng.shuffle(live)
+        for p, f, a, b in live:
+            e = p.circuit[2].op.p[0]
+            if any(p.reg_refs[r.ind] is not r for r in par_regref_deps(e)) or \
+                    any(p.reg_refs[r.ind] is not r for r in p.circuit[2].op.measurement_deps):
+                ctx.fail("cache-order-foreign-regref", f"after building programs {script} a parameter refers to the "
+                         f"RegRef of another program", dict(kind="cache_order", seed=None))
+                return
+            be = px.make_backend([((10,), [[a]]), ((1,), [[b]])])
+            sf.Engine(be).run(p)
+            got = [c[2][0] for c in be.calls if c[0] == "displacement"]
+            want = ref[f](a, b)
+            if not ((want == 0 and got == []) or (len(got) == 1 and px.close(got[0], want))):
+                ctx.fail("cache-order-wrong-value", f"after building programs {script}: applied {got}, own outcomes "
+                         f"give {want}", dict(kind="cache_order", seed=None))
+                return
+    except Exception as e:
+        ctx.fail("cache-order-raises", f"building/running equal-looking programs {script} raises "
+                 f"{type(e).__name__}: {str(e)[:200]}", dict(kind="cache_order", seed=None))
+
+
 # =============================================================== O1: symbolic vs substituted programs
 
 G1 = {"Dgate": 2, "Xgate": 1, "Zgate": 1, "Rgate": 1, "Sgate": 2, "Pgate": 1}
@@ -866,7 +1131,8 @@ SQUEEZY = {"Sgate", "S2gate", "Squeezed", "Pgate", "CXgate", "CZgate"}
 
 def gen_prog(rng, allow_meas=True, nmax=4):
     u = next(_uid)
-    n = rng.randint(2, nmax)
+    n = rng.choice([2, 3, 4, 4, 11]) if nmax >= 4 else rng.randint(2, nmax)
+    modes_all = list(range(n)) if n <= 4 else [0, 1, 9, 10]     # two-digit subsystem indices
     names = [f"p{u}", f"r{u}"]
     free = {nm: dy(rng, -8, 8) for nm in names}
     ops, latest = [], {}
@@ -876,20 +1142,20 @@ def gen_prog(rng, allow_meas=True, nmax=4):
         if k == "meas" and not allow_meas:
             k = "g1"
         if k == "meas":
-            m = rng.randrange(n)
+            m = rng.choice(modes_all)
             v = dy(rng, -8, 8)
             ops.append(dict(cls="MeasureHomodyne", regs=[m], pars=[px.num(rng.choice([0.0, 0.0, 0.5]))], select=v))
             latest[m] = v
             continue
         if k == "fourier":
-            ops.append(dict(cls="Fouriergate", regs=[rng.randrange(n)], pars=[], dagger=rng.random() < 0.3))
+            ops.append(dict(cls="Fouriergate", regs=[rng.choice(modes_all)], pars=[], dagger=rng.random() < 0.3))
             continue
         if k == "loss":
-            ops.append(dict(cls="LossChannel", regs=[rng.randrange(n)], pars=[px.num(rng.choice([0.5, 0.75, 0.25]))]))
+            ops.append(dict(cls="LossChannel", regs=[rng.choice(modes_all)], pars=[px.num(rng.choice([0.5, 0.75, 0.25]))]))
             continue
         table = {"g1": G1, "g2": G2, "prep": PREP}[k]
         cls = rng.choice(list(table))
-        regs = rng.sample(range(n), 2) if k == "g2" else [rng.randrange(n)]
+        regs = rng.sample(modes_all, 2) if k == "g2" else [rng.choice(modes_all)]
         lim = 0.6 if cls in SQUEEZY else 1.5
         pars = []
         for j in range(table[cls]):
@@ -927,10 +1193,17 @@ def gen_prog(rng, allow_meas=True, nmax=4):
             if k != "prep":
                 twin["dagger"] = rng.random() < 0.3
             ops.append(twin)
+        rd = [m for t in pars for m in px.atoms(t, "m")]
+        if rd and rng.random() < 0.35:
+            # the mode whose outcome was just used is measured again (another outcome): the feed-forward operation
+            # must not be moved behind this measurement by any compiler / optimizer
+            v2 = dy(rng, -8, 8)
+            ops.append(dict(cls="MeasureHomodyne", regs=[rd[0]], pars=[px.num(0.0)], select=v2))
+            latest[rd[0]] = v2
     return dict(n=n, names=names, free=free, ops=ops)
 
 
-def build_prog(sf, spec, numeric, cut=None, jitter=0.0):
+def build_prog(sf, spec, numeric, cut=None, jitter=0.0, share=False):
     """returns the list of Programs (one, or two when `cut` splits the op list into segments)"""
     from strawberryfields import ops as O
     progs = []
@@ -939,7 +1212,9 @@ def build_prog(sf, spec, numeric, cut=None, jitter=0.0):
     for k, piece in enumerate(pieces):
         prog = sf.Program(spec["n"]) if k == 0 else sf.Program(progs[-1])
         fobj = {nm: prog.params(nm) for nm in spec["names"]} if not numeric else {}
-        with prog.context as q:
+        cache = {}
+        with prog.context:
+            q = prog.reg_refs
             for op in piece:
                 pars = []
                 for t in op["pars"]:
@@ -953,7 +1228,13 @@ def build_prog(sf, spec, numeric, cut=None, jitter=0.0):
                 if op.get("select") is not None:
                     kw["select"] = op["select"]
                     latest[op["regs"][0]] = op["select"]
-                o = getattr(O, op["cls"])(*pars, **kw)
+                key = json.dumps([op["cls"], op["pars"], kw, [latest.get(m) for t in op["pars"] for m in px.atoms(t, "m")]],
+                                 sort_keys=True)
+                if share and key in cache:
+                    o = cache[key]       # the user built this operation once and applies it again
+                else:
+                    o = getattr(O, op["cls"])(*pars, **kw)
+                    cache[key] = o
                 if op.get("dagger"):
                     o = o.H
                 regs = [q[i] for i in op["regs"]]
@@ -1005,7 +1286,7 @@ def prog_one(ctx, sf, spec, cfg):
     except Exception as e:
         ctx.tally("prog_numeric_twin_rejected:" + type(e).__name__)
         return
-    sym_progs = build_prog(sf, spec, False, cfg.get("cut"))
+    sym_progs = build_prog(sf, spec, False, cfg.get("cut"), share=cfg.get("share", False))
     if cfg.get("decoy"):
         d = sf.Program(spec["n"])
         with d.context as dq:
@@ -1090,7 +1371,8 @@ def gen_cfg(rng, spec, k):
     if compiler == "gaussian_unitary":
         opt = "no"
     return dict(backend=backend, compiler=compiler, optimize=opt, cut=cut,
-                prebind=compiler == "gaussian_unitary" or rng.random() < 0.15, decoy=rng.random() < 0.4, neg=k % 4 == 0)
+                prebind=compiler == "gaussian_unitary" or rng.random() < 0.15, decoy=rng.random() < 0.4, neg=k % 4 == 0,
+                share=rng.random() < 0.5)
 
 
 # =============================================================== driver
@@ -1110,6 +1392,10 @@ def flush(ctx, sf, reqs, pend):
             decomp_compare(ctx, sf, case, got, model)
         elif kind == "history":
             history_compare(ctx, case, got, model)
+        elif kind == "session":
+            session_compare(ctx, case, got, model)
+        elif kind == "convert":
+            convert_compare(ctx, case, got, model)
     reqs.clear()
     pend.clear()
 
@@ -1124,6 +1410,14 @@ def dispatch(ctx, sf, item, reqs, pend):
         history_one(ctx, sf, item["case"], reqs, pend)
     elif k == "prog":
         prog_one(ctx, sf, item["case"], item["cfg"])
+    elif k == "session":
+        session_one(ctx, sf, item["case"], reqs, pend)
+    elif k == "convert":
+        convert_one(ctx, sf, item["case"], reqs, pend)
+    elif k == "cache_order":
+        import random
+        for sd in range(20):
+            cache_order_oracle(ctx, sf, random.Random(sd))
     elif k == "free_isolation":
         free_isolation_oracle(ctx, sf, item["variant"])
     elif k == "free":
@@ -1134,29 +1428,50 @@ def dispatch(ctx, sf, item, reqs, pend):
             pend.append(("free", item["case"], out))
 
 
+def safe(ctx, sf, item, reqs, pend):
+    """an exception escaping from the code under test (or from this harness) on a generated input is reported with
+    the input instead of crashing the run"""
+    try:
+        dispatch(ctx, sf, item, reqs, pend)
+    except Exception as e:
+        import traceback
+        tb = traceback.extract_tb(e.__traceback__)[-1]
+        ctx.fail("exception-" + item["kind"], f"{type(e).__name__}: {str(e)[:200]} at {Path(tb.filename).name}:{tb.lineno}",
+                 item)
+
+
 def run(ctx, sf):
     rng = ctx.rng
     reqs, pend = [], []
     for f in sorted(CORPUS.glob("*.json")):
-        dispatch(ctx, sf, json.loads(f.read_text()), reqs, pend)
+        safe(ctx, sf, json.loads(f.read_text()), reqs, pend)
     for v in ("create", "bind"):
         free_isolation_oracle(ctx, sf, v)
-    for _ in range(ctx.n(1200, 20000)):
-        info_one(ctx, sf, gen_info_case(rng), reqs, pend)
+    for _ in range(ctx.n(1100, 20000)):
+        safe(ctx, sf, dict(kind="info", case=gen_info_case(rng)), reqs, pend)
         if len(reqs) > 2500:
             flush(ctx, sf, reqs, pend)
-    for _ in range(ctx.n(160, 2500)):
-        dispatch(ctx, sf, dict(kind="free", case=gen_free_script(rng)), reqs, pend)
-    for _ in range(ctx.n(320, 5000)):
-        decomp_one(ctx, sf, gen_decomp_case(rng), reqs, pend)
-    for k in range(ctx.n(500, 9000)):
-        history_one(ctx, sf, gen_history(rng, shots_variant=(k % 12 == 11)), reqs, pend)
+    for _ in range(ctx.n(150, 2500)):
+        safe(ctx, sf, dict(kind="free", case=gen_free_script(rng)), reqs, pend)
+    for _ in range(ctx.n(300, 5000)):
+        safe(ctx, sf, dict(kind="decomp", case=gen_decomp_case(rng)), reqs, pend)
+    for _ in range(ctx.n(200, 3000)):
+        safe(ctx, sf, dict(kind="convert", case=gen_convert_case(rng)), reqs, pend)
+    for k in range(ctx.n(450, 9000)):
+        safe(ctx, sf, dict(kind="history", case=gen_history(rng, shots_variant=(k % 12 == 11))), reqs, pend)
+        if len(reqs) > 2500:
+            flush(ctx, sf, reqs, pend)
+    for k in range(ctx.n(200, 4000)):
+        safe(ctx, sf, dict(kind="session", case=gen_session(rng)), reqs, pend)
         if len(reqs) > 2500:
             flush(ctx, sf, reqs, pend)
     flush(ctx, sf, reqs, pend)
+    import random
+    for k in range(ctx.n(12, 200)):
+        cache_order_oracle(ctx, sf, random.Random(rng.getrandbits(32)))
     for k in range(ctx.n(230, 5000)):
         spec = gen_prog(rng, nmax=4)
-        prog_one(ctx, sf, spec, gen_cfg(rng, spec, k))
+        safe(ctx, sf, dict(kind="prog", case=spec, cfg=gen_cfg(rng, spec, k)), reqs, pend)
 
 
 def search(ctx, sf):
